@@ -4,7 +4,9 @@ package main
 
 import (
 	"bytes"
+	"context"
 	"errors"
+	"fmt"
 	"strings"
 
 	mc "github.com/ddddddO/gtree/verifmc"
@@ -21,7 +23,19 @@ var (
 
 // mcWriter is the environment's io.Writer: a scheduling point before every write, hand-instrumented
 // state for the race monitor, failure from the failAt-th write on (optionally as a short write).
+// flavoured: errors of real readers and writers often wrap something else (a cancelled request, a deadline)
+func flavoured(name string, base error) error {
+	switch name {
+	case "canceled-wrapped":
+		return fmt.Errorf("stream closed: %w (%w)", base, context.Canceled)
+	case "deadline-wrapped":
+		return fmt.Errorf("i/o timeout: %w (%w)", base, context.DeadlineExceeded)
+	}
+	return base
+}
+
 type mcWriter struct {
+	err      error
 	buf      bytes.Buffer
 	writes   int
 	failAt   int
@@ -39,12 +53,16 @@ func (w *mcWriter) Write(p []byte) (int, error) {
 	*mc.W(&w.state, siteWriter)++
 	w.writes++
 	if w.failAt > 0 && (w.writes == w.failAt || (w.writes > w.failAt && !w.once)) {
+		e := w.err
+		if e == nil {
+			e = errWriter
+		}
 		if w.short && len(p) > 1 && w.writes == w.failAt {
 			w.buf.Write(p[:len(p)/2])
 			w.accepted += len(p) / 2
-			return len(p) / 2, errWriter
+			return len(p) / 2, e
 		}
-		return 0, errWriter
+		return 0, e
 	}
 	w.accepted += len(p)
 	return w.buf.Write(p)
@@ -53,6 +71,7 @@ func (w *mcWriter) Write(p []byte) (int, error) {
 // mcReader hands out the document line by line with a scheduling point before every Read;
 // after failAfter bytes (>=0) it returns errReader; at cancelAt bytes (>=0) it calls cancel.
 type mcReader struct {
+	err       error
 	data      string
 	pos       int
 	failAfter int
@@ -78,6 +97,9 @@ func (r *mcReader) Read(p []byte) (int, error) {
 	}
 	if r.pos >= limit {
 		if r.failAfter >= 0 {
+			if r.err != nil {
+				return 0, r.err
+			}
 			return 0, errReader
 		}
 		return 0, errEOF
